@@ -220,6 +220,11 @@ def call_frontend(case, sim_factory, reuse=None, call_op="__case__"):
     yv = np.array(case["y"]["pts"], dtype=float)
     x = osyris.Array(values=xv[::-1].copy() if prior else xv, unit=case["xunit"], name="xq")
     y = osyris.Array(values=yv.copy() if prior else yv, unit="", name="yq")
+    if prior:
+        # (other contents means another range too: what an earlier call learnt about the coordinates must not be reused)
+        with np.errstate(all="ignore"):
+            x.values[...] = (x.values * 3).astype(x.values.dtype)
+            y.values[...] = y.values * 0.25
     layers = []
     datas = []
     for i, l in enumerate(case["layers"]):
